@@ -418,6 +418,78 @@ func c03CodeStrings(c *Ctx, root *packages.Package, l *layoutCtx) {
 		for _, it := range items[1 : len(items)-1] {
 			visit(it)
 		}
+		// ordered choice: the alternatives that take an escaped quote and an escaped backslash as units come before
+		// any alternative that can take a lone backslash - otherwise `\q` is read as a backslash followed by the closing
+		// quote and the literal ends early
+		for _, it := range items[1 : len(items)-1] {
+			ch := it
+			for ch != nil && l.kind(ch) != "choiceExpr" && l.kind(ch) != "charClassMatcher" && l.kind(ch) != "litMatcher" && l.kind(ch) != "seqExpr" {
+				ch = l.child(ch)
+			}
+			if ch == nil || l.kind(ch) != "choiceExpr" {
+				continue
+			}
+			eater, escQuote, escBackslash := -1, -1, -1
+			for k, a := range l.list(ch, "alternatives") {
+				for a != nil && (l.kind(a) == "oneOrMoreExpr" || l.kind(a) == "zeroOrMoreExpr" || l.kind(a) == "zeroOrOneExpr") {
+					a = l.child(a)
+				}
+				if a == nil {
+					continue
+				}
+				switch l.kind(a) {
+				case "anyMatcher":
+					if eater < 0 {
+						eater = k
+					}
+				case "charClassMatcher":
+					excl := false
+					if cs, ok := l.field(a, "chars").(*ast.CompositeLit); ok {
+						for _, el := range cs.Elts {
+							if nospace(el) == `'\\'` {
+								excl = true
+							}
+						}
+					}
+					if nospace(l.field(a, "inverted")) == "true" && !excl && eater < 0 {
+						eater = k
+					}
+				case "litMatcher":
+					switch v, _ := litField(root, a, "val"); v {
+					case `\` + q:
+						if escQuote < 0 {
+							escQuote = k
+						}
+					case `\\`:
+						if escBackslash < 0 {
+							escBackslash = k
+						}
+					}
+				case "seqExpr":
+					its := l.list(a, "exprs")
+					if len(its) == 2 && l.kind(its[0]) == "litMatcher" {
+						if v, _ := litField(root, its[0], "val"); v == `\` {
+							if kd := l.kind(its[1]); kd == "anyMatcher" || kd == "charClassMatcher" && nospace(l.field(its[1], "inverted")) == "true" {
+								if escQuote < 0 {
+									escQuote = k
+								}
+								if escBackslash < 0 {
+									escBackslash = k
+								}
+							}
+						}
+					}
+				}
+			}
+			if eater >= 0 {
+				switch {
+				case escQuote < 0 || escQuote > eater:
+					bad = append(bad, fmt.Sprintf("in the %s…%s alternative of CodeStringLiteral the alternative that can take a lone backslash (#%d of the repeated choice) is tried before one that takes `\\%s` as a unit: the escaped quote of %s\\%s%s ends the literal", q, q, eater+1, q, q, q, q))
+				case escBackslash < 0 || escBackslash > eater:
+					bad = append(bad, fmt.Sprintf("in the %s…%s alternative of CodeStringLiteral the alternative that can take a lone backslash (#%d of the repeated choice) is tried before one that takes `\\\\` as a unit: in %s\\\\%s the second backslash escapes the closing quote", q, q, eater+1, q, q))
+				}
+			}
+		}
 		if !passes {
 			bad = append(bad, fmt.Sprintf("the %s…%s alternative of CodeStringLiteral (`%s`) cannot pass over a backslash followed by an arbitrary character: its negated class excludes the backslash and no alternative takes a backslash with the character after it", q, q, abbreviate(l.describe(alt))))
 		}
